@@ -452,9 +452,9 @@ func main() {
 		ID: "C34", Model: "C34", Gen: genAll, Impl: impl, Oracle: oracle,
 		Cases: func(th bool) int {
 			if th {
-				return 1500
+				return 2500
 			}
-			return 90
+			return 500
 		},
 		Fixed: fixedCases(),
 	})
